@@ -314,7 +314,8 @@ class World:
                 out += ' args=*'
             else:
                 out += ' args=[' + ','.join(show(a) for a in e.args) + ']'
-        return out + f' cause={self.rel(e.__cause__)} ctx={self.rel(e.__context__)}'
+        ctx = self.rel(e.__context__)
+        return out + f' cause={self.rel(e.__cause__)} ctx={"-" if ctx == "o" else ctx}'
 
     def snapshot(self):
         st = _state.state
